@@ -290,13 +290,21 @@ vp_on_lock(void) {
   ghost_check();
   g_locks++;
   env_act();
+#if VP_IMM
+  /* the lock taken at the top of a loop iteration (before the entry's key is
+     read) because has_imm was seen: the flush runs in this critical section
+     (ldb_compact_memtable's body is removed, the flush obligations decide
+     it; its effect is applied at the broadcast that must follow) */
+  if (db.imm != NULL && g_in != NULL && !g_in_cleared && g_in->pos >= 0 && g_pos_seen == g_in->pos)
+    g_flush_wake_due = 1;
+#endif
 }
 
 static void
 vp_on_unlock(void) {
   ghost_save();
   VP_ASSERT((db.imm != NULL) == (db.has_imm != 0), "has_imm mirrors imm");
-  VP_ASSERT(!g_flush_wake_due, "C09 writers waiting for the flush are woken before the mutex is released");
+  VP_ASSERT(!g_flush_wake_due, "C09 imm seen by the compaction loop: writers waiting for room are woken (broadcast) before the mutex is released");
   env_act();
 }
 
@@ -311,6 +319,15 @@ vp_on_signal(ldb_cond_t *cv, int broadcast) {
   VP_ASSERT(cv == &db.background_work_finished_signal && broadcast, "writers waiting for room are woken by a broadcast");
   VP_ASSERT(vp_mutex_held, "broadcast under the mutex");
   g_bg_broadcast++;
+#if VP_IMM
+  if (g_flush_wake_due) {
+    g_flushes++;
+    if (vp_bool()) {           /* the flush succeeded */
+      db.imm = NULL;
+      db.has_imm = 0;
+    }
+  }
+#endif
   g_flush_wake_due = 0;
 }
 
@@ -798,21 +815,6 @@ ldb_versions_apply(ldb_versions_t *v, ldb_edit_t *edit, ldb_mutex_t *mu) {
   g_apply_rc = vp_fault();
   note_err(g_apply_rc);
   return g_apply_rc;
-}
-
-/* replaces ldb_compact_memtable (decided by the flush obligations) */
-void
-vp_compact_memtable_stub(ldb_t *d) {
-  VP_ASSERT(d == &db && vp_mutex_held, "flush of imm under the mutex");
-  VP_ASSERT(db.imm != NULL, "flush only with an immutable memtable");
-  g_flushes++;
-  if (vp_bool()) {
-    db.imm = NULL;
-    db.has_imm = 0;
-  } else if (db.bg_error == LDB_OK) {
-    db.bg_error = LDB_IOERR;   /* a failed flush latches its own error */
-  }
-  g_flush_wake_due = 1;
 }
 
 /* ---- reference --------------------------------------------------------- */
